@@ -111,6 +111,9 @@ fn avar_bytes(maps: &[Vec<(i16, i16)>]) -> Vec<u8> {
             be16(&mut v, *t as u16);
         }
     }
+    // data after the last segment map (a reader must stop at axisCount maps): 0-3 bytes, a function of the maps
+    let pairs: usize = maps.iter().map(|m| m.len()).sum();
+    pad(&mut v, 11, (pairs % 4) as i64);
     v
 }
 
